@@ -132,6 +132,8 @@ pub fn check_default(func: &str, arg: &str) -> bool {
 
 fn check_answer(func: &str, arg: String) -> bool {
     crate::real::maybe_nested_traced_parse();
+    // under the schedule explorer a user function is a scheduling point
+    crate::real::do_yield();
     log(func, arg.clone());
     ENV.with(|e| e.borrow().answers.check.get(&(func.to_string(), arg.clone())).copied().unwrap_or_else(|| check_default(func, &arg)))
 }
